@@ -21,6 +21,11 @@ pub struct C08Case {
     /// stale digest), 2 = the signature header is replaced by that of another package
     #[serde(default)]
     pub stale_sig: u8,
+    /// the destination of file #n is given to the builder a second time (bool: spelled the other
+    /// way, "./x" for "/x"), with different content. Which of the two the package keeps is the
+    /// library's choice; the recorded digests have to describe what it archived.
+    #[serde(default)]
+    pub dup: Option<(u8, bool)>,
 }
 
 /// decompress with the decoder crates directly (not through rpm's decompress_stream)
@@ -86,6 +91,9 @@ pub fn check_digests(bytes: &[u8], files: &[(FileSpec, Vec<u8>)], stage: &str) -
         Some(d) if d.len() == 1 && d[0] == want => {}
         other => return Err(("payload-digest-alt".into(), format!("{stage}: PAYLOADDIGESTALT {:?}, the uncompressed archive ({} bytes) hashes to {want}", other, raw.len()))),
     }
+    // every recorded file digest is the digest of what the archive holds for that file
+    // (independent of what the harness believes was supplied)
+    archived_digests(bytes, &seg, &raw, stage)?;
     if !files.is_empty() {
         let got = fmt::get_str_array(bytes, &seg.hdr, tags::FILEDIGESTS).unwrap_or_default();
         let want: Vec<String> = files.iter().map(|(_, c)| digests::sha256_hex(&[c])).collect();
@@ -95,6 +103,43 @@ pub fn check_digests(bytes: &[u8], files: &[(FileSpec, Vec<u8>)], stage: &str) -
         }
         if fmt::get_u32s(bytes, &seg.hdr, tags::FILEDIGESTALGO) != Some(vec![8]) {
             return Err(("file-digest".into(), format!("{stage}: FILEDIGESTALGO is not [8]")));
+        }
+    }
+    Ok(())
+}
+
+fn archived_digests(bytes: &[u8], seg: &fmt::Segments, raw: &[u8], stage: &str) -> Result<(), (String, String)> {
+    let basenames = fmt::get_str_array(bytes, &seg.hdr, tags::BASENAMES).unwrap_or_default();
+    if basenames.is_empty() {
+        return Ok(());
+    }
+    let sizes: Vec<u64> = match fmt::get_u64s(bytes, &seg.hdr, tags::LONGFILESIZES) {
+        Some(v) => v,
+        None => fmt::get_u32s(bytes, &seg.hdr, tags::FILESIZES).unwrap_or_default().into_iter().map(u64::from).collect(),
+    };
+    let modes = fmt::get_u16s(bytes, &seg.hdr, tags::FILEMODES).unwrap_or_default();
+    let dirnames = fmt::get_str_array(bytes, &seg.hdr, tags::DIRNAMES).unwrap_or_default();
+    let dirindexes = fmt::get_u32s(bytes, &seg.hdr, tags::DIRINDEXES).unwrap_or_default();
+    let recorded = fmt::get_str_array(bytes, &seg.hdr, tags::FILEDIGESTS).unwrap_or_default();
+    let (entries, _) = crate::refimpl::cpio::parse_archive(raw, &sizes).map_err(|e| ("payload-undecodable".to_string(), format!("{stage}: archive: {e}")))?;
+    for e in &entries {
+        let i = match e.stripped_index {
+            Some(ix) => ix as usize,
+            None => {
+                let name = String::from_utf8_lossy(&e.name).to_string();
+                match (0..basenames.len()).find(|i| dirnames.get(*dirindexes.get(*i).unwrap_or(&u32::MAX) as usize).is_some_and(|d| format!(".{d}{}", basenames[*i]) == name)) {
+                    Some(i) => i,
+                    None => continue,
+                }
+            }
+        };
+        let (Some(mode), Some(rec)) = (modes.get(i), recorded.get(i)) else { continue };
+        if mode & 0o170000 != 0o100000 {
+            continue;
+        }
+        let want = digests::sha256_hex(&[&e.data]);
+        if *rec != want {
+            return Err(("file-digest".into(), format!("{stage}: file #{i} ({:?}): FILEDIGESTS records {rec:?} but the {} bytes archived for it hash to {want}", basenames[i], e.data.len())));
         }
     }
     Ok(())
@@ -122,7 +167,7 @@ impl Property for C08 {
         vec!["decoders (flate2, zstd, liblzma, bzip2) and RustCrypto hashes are trusted; they are called directly, not through the crate under test".into()]
     }
     fn required_labels(&self, _t: Tier) -> Vec<&'static str> {
-        vec!["caller-written-signer", "one-source-path-rewritten", "resigned-stale-signature-header", "above-threshold-gzip", "above-threshold-zstd", "above-threshold-xz", "above-threshold-bzip2", "with-ops", "comp-none"]
+        vec!["destination-given-twice", "caller-written-signer", "one-source-path-rewritten", "resigned-stale-signature-header", "above-threshold-gzip", "above-threshold-zstd", "above-threshold-xz", "above-threshold-bzip2", "with-ops", "comp-none"]
     }
     fn phases(&self, tier: Tier) -> Vec<Phase<C08Case>> {
         vec![
@@ -135,7 +180,7 @@ impl Property for C08 {
                             if cfg.signer == Some(1) {
                                 cfg.signer = Some(0);
                             }
-                            C08Case { cfg, ops, stale_sig: 0 }
+                            C08Case { cfg, ops, stale_sig: 0, dup: None }
                         })
                         .boxed()
                 }),
@@ -150,14 +195,26 @@ impl Property for C08 {
                                 cfg.signer = Some(2);
                             }
                             cfg.lazy_signer = stale_sig == 0 && cfg.files.len() % 5 == 1;
-                            C08Case { cfg, ops, stale_sig }
+                            C08Case { cfg, ops, stale_sig, dup: None }
                         })
+                        .boxed()
+                }),
+            },
+            Phase::Random {
+                name: "destination-given-twice",
+                cases: tier.pick(400, 20_000),
+                strat: Arc::new(|| {
+                    (config_any(CfgParams { max_files: 4, sizes: size_small(), comp: comp_fast(), sign_prob: 0.0, file_kinds: false, force_large_prob: 0.1, rich_meta: false }), any::<u8>(), any::<bool>())
+                        .prop_filter_map("needs a file", |(cfg, n, spell)| if cfg.files.is_empty() { None } else { Some(C08Case { cfg, ops: vec![], stale_sig: 0, dup: Some((n, spell)) }) })
                         .boxed()
                 }),
             },
         ]
     }
     fn check(&self, case: &C08Case) -> Outcome {
+        if let Some((n, spell)) = case.dup {
+            return check_dup(&case.cfg, n, spell);
+        }
         let mut o = Outcome::new();
         let cfg = &case.cfg;
         o.label(comp_label(&cfg.compression));
@@ -222,4 +279,44 @@ impl Property for C08 {
         }
         o
     }
+}
+
+
+fn check_dup(cfg: &BuilderConfig, n: u8, spell: bool) -> Outcome {
+    let mut o = Outcome::new();
+    o.label("destination-given-twice");
+    let mut cfg = cfg.clone();
+    let i = n as usize % cfg.files.len();
+    let mut second = cfg.files[i].clone();
+    if spell {
+        second.dot_style = !second.dot_style;
+        o.label("second-spelling-differs");
+    }
+    second.content.seed = second.content.seed.wrapping_add(0x9e37_79b9);
+    second.content.size = second.content.size + 1 + (n as u32 % 7);
+    if second.content.kind == 0 {
+        second.content.kind = 1;
+    }
+    cfg.files.push(second);
+    o.nontrivial_key(fnv1a(serde_json::to_string(&(&cfg, n, spell)).unwrap_or_default().as_bytes()));
+    let built = match panics::catch(|| crate::gen::builder::build(&cfg)) {
+        Ok(b) => b,
+        Err(p) => {
+            o.fail("build-panic", p);
+            return o;
+        }
+    };
+    let pkg = match built.result {
+        Ok(p) => p,
+        Err(_) => {
+            // refusing the second file is a legitimate answer
+            o.label("duplicate-refused");
+            return o;
+        }
+    };
+    let r = write_pkg(&pkg).and_then(|bytes| check_digests(&bytes, &[], "destination given twice"));
+    if let Err((c, d)) = r {
+        o.fail(&c, d);
+    }
+    o
 }
